@@ -263,8 +263,8 @@ func handshakeSerial(cw *certwatcher.CertWatcher) (int64, error) {
 	defer b.Close()
 	srv := tls.Server(a, &tls.Config{GetCertificate: cw.GetCertificate, MinVersion: tls.VersionTLS12})
 	cli := tls.Client(b, &tls.Config{InsecureSkipVerify: true})
-	a.SetDeadline(time.Now().Add(2 * time.Second))
-	b.SetDeadline(time.Now().Add(2 * time.Second))
+	a.SetDeadline(time.Now().Add(20 * time.Second))
+	b.SetDeadline(time.Now().Add(20 * time.Second))
 	errc := make(chan error, 1)
 	go func() { errc <- srv.Handshake() }()
 	if err := cli.Handshake(); err != nil {
